@@ -305,3 +305,13 @@ PROPS["C19"].update({"lean": ["DM.Props.C19"], "gens": ["c19", "c19p"],
 PROPS["C02"]["gens"] = ["c02", "c02p", "c02x"]
 PROPS["C02"]["explanation"] += " Model correspondence: the Lean model of the whole data encoder (DM/Model/Encode.lean: main loop, maybe_switch_mode, the six mode encoders with all end-of-data branches, add_padding; every assertion / unreachable / capacity / underflow site an explicit panic outcome) is run on the plan the implementation used (hook) for every case of the sweep and must produce the same codewords and size, and on thousands of arbitrary mutated plans injected through the plan-override hook it must agree with the implementation including the cases where the implementation panics."
 PROPS["C02"]["technique"] = "specification oracle (Lean reference decoder) on implementation output + Lean encoder model correspondence (real and injected plans) + padding theorem"
+
+# planner model correspondence (DM/Model/Planner.lean), shared by the properties anchored in the planner
+_PLANNER_NOTE = (" Planner model correspondence (gen c18m): the Lean model of the whole planner (DM/Model/Planner.lean: Frac in twelfths,"
+    " the six per-mode plans with every end-of-data shortcut, GenericPlan, add_switches, remove_hopeless_cases, optimize with its step and"
+    " live-plan counters; every assert / unwrap / underflow an explicit panic outcome) is run on the same (data, written, list, modes) as"
+    " optimize() through the hook and must return the same plan, cost, step count and live maximum. The order sort_unstable leaves equal-cost"
+    " plans in is not modelled: the hook logs the permutation of every sort, the model checks that it sorts its own candidate list and follows it.")
+for _p in ("C13", "C18", "C19", "C11"):
+    PROPS[_p]["gens"] = list(PROPS[_p]["gens"]) + ["c18m"]
+    PROPS[_p]["explanation"] += _PLANNER_NOTE
